@@ -112,7 +112,9 @@ def gen_line_case(rnd, spec):
     if mode in ("set", "list"):
         tags = {"kind": mode, "keys": whitelist + extra_tags}
     elif mode == "dict":
-        tags = {"kind": "dict", "items": [[k, gen_tag_value(rnd)] for k in whitelist + extra_tags]}
+        tags = {"kind": "dict", "items": [[k, gen_tag_value(rnd)] for k in whitelist + extra_tags],
+                # the defaults may be any mapping, not just a dict
+                "as": rnd.choice(["dict", "dict", "proxy", "userdict", "chainmap", "ordered"])}
     resolution = rnd.choice([None, None, 1, 10, 60, 100, 3600, rnd.randint(1, 10**4)])
     records = []
     for _ in range(rnd.randint(1, 4)):
@@ -256,6 +258,14 @@ def exec_line(case, result):
     elif t["kind"] == "dict":
         tags_arg = {k: v for k, v in t["items"]}
         defaults, whitelist = dict(tags_arg), set(tags_arg)
+        how = t.get("as", "dict")
+        if how != "dict":
+            import collections
+            import types
+
+            tags_arg = {"proxy": types.MappingProxyType, "userdict": collections.UserDict, "ordered": collections.OrderedDict,
+                        "chainmap": lambda d: collections.ChainMap({}, d)}[how](tags_arg)
+            result.count("line_formatters_with_non_dict_mapping_defaults")
     else:
         tags_arg = set(t["keys"]) if t["kind"] == "set" else list(t["keys"])
         defaults, whitelist = {}, set(t["keys"])
@@ -438,7 +448,7 @@ def run_shard(spec):
 
 
 def finish(total, tier):
-    for name in ("line_records", "line_records_with_tags", "line_records_with_special_chars", "line_records_with_timestamp", "line_records_with_container_tag_values",
+    for name in ("line_records", "line_formatters_with_non_dict_mapping_defaults", "line_records_with_tags", "line_records_with_special_chars", "line_records_with_timestamp", "line_records_with_container_tag_values",
                  "json_records", "json_records_with_time", "json_records_without_time", "json_records_with_keys_that_are_not_strings"):
         if not total.counters.get(name) and not total.violations:
             total.inconc("monitor never observed: " + name)
